@@ -147,6 +147,7 @@ def exec_case(ctx, case):
         if k in ("refresh", "cleanup", "clone", "verify", "loadself"):
             classes.add("maint:" + k)
         mexc = rexc = None
+        replaced_defined = key in model.defs if key is not None else False
         try:
             model.apply(op)
         except Exception as e:
@@ -158,7 +159,20 @@ def exec_case(ctx, case):
         where = {"step": i, "op": W.render_op(op), "history": W.render_case(case)[:i + 1]}
         if mexc is not None:
             classes.add("python-raises")
-            return finish(None, False)       # Python itself raises: history ends (C01 decides that clause)
+            if op.get("unevaluable"):
+                classes.add("unevaluable-assignment" + ("-onto-defined-target" if replaced_defined else ""))
+            # Python itself raises: the history ends here (C01 decides the value clause).  Whatever the interrupted call
+            # left registered, the manager must still be consistent with itself: indices two-sided, verify() quiet
+            if rexc is not None:
+                f = check_indices(real.m, where)
+                if f:
+                    f.sig += ":after-interrupted-call"
+                    return finish(f)
+                try:
+                    real.m.verify()
+                except Exception as e:
+                    return finish(Failure("C03:verify-raises:after-interrupted-call", dict(where, raised=repr(e)[:300])))
+            return finish(None, bool(op.get("unevaluable")) and replaced_defined)
         if rexc is not None:
             return finish(Failure(f"C03:exception:{type(rexc).__name__}:{xdeps_frame(rexc)}",
                                   dict(where, raised=repr(rexc)[:300])))
@@ -252,6 +266,22 @@ def cases(draw, opts):
         if not g.step():
             break
     n_follow = 0
+    if not g.raised and draw(st.integers(0, 4)) == 0:
+        # the history ends with an assignment of an expression that CANNOT be evaluated (it reads a missing key), mostly
+        # onto a location that already has an expression: whatever set_value leaves behind must be consistent
+        m = g.model
+        ft_t, kb_t, kb_s, _ = g.roles()
+        cands = [k for k in g.leaves() if k not in ft_t and k not in kb_t and k not in kb_s]
+        defined = [k for k in cands if k in m.defs]
+        t = draw(st.sampled_from(defined if defined and draw(st.integers(0, 3)) > 0 else cands))
+        base = g.term_for(t)
+        missing = ["loc", "d", [["i", "n0"], ["i", "no_such_key"]]]
+        ast = missing if base is None else ["bin", draw(st.sampled_from(["+", "*"])), base, missing]
+        if draw(st.booleans()) and base is not None:
+            ast = ["bin", "-", missing, base]
+        g.push({"op": "sete", "loc": W.json_loc(t), "ast": ast, "unevaluable": True})
+        if not g.raised:        # (it must raise)
+            g.raised = True
     if not g.raised:
         for _ in range(draw(st.integers(1, 4))):
             before = len(g.ops)
